@@ -50,9 +50,12 @@ def norm_base(prog: Prog, fn: Fn, e: ast.AST, depth: int = 0) -> str:
         defs = [node for kind, node in prog.local_defs(fn, e.id) if kind in ("assign", "walrus", "annassign") and getattr(node, "value", None) is not None]
         if len(defs) == 1:
             return norm_base(prog, fn, defs[0].value, depth + 1)
+        if len(defs) > 1:
+            return "|".join(sorted({norm_base(prog, fn, d.value, depth + 1) for d in defs}))
         if prog.param_type(fn, e.id) is not None:
-            return f"param:{e.id}"
-        return e.id
+            ps = fn.params()
+            return f"param:{e.id}" if e.id in ("args", "kwargs") or e.id not in ps else f"param:{ps.index(e.id)}"
+        return "local"
     if isinstance(e, (ast.List, ast.ListComp)):
         return "[list]"
     return type(e).__name__
